@@ -27,7 +27,7 @@ from happysimulator.components.streaming import (
 from happysimulator.core.sim_future import SimFuture
 
 from hsverif.scenarios import Scenario, scenario
-from hsverif.scenarios._kit import P, Proc, Recorder, at, ev, make_sim
+from hsverif.scenarios._kit import FRONT_STAGES, P, Proc, Recorder, at, ev, front_stage, make_sim
 
 
 def _every(p: P, i: int, n: int = 2500) -> float:
@@ -56,7 +56,7 @@ def _retention(kind: str, p: P):
 def _log(p: P, kind: str, partitions: int = 3, raw: bool = False) -> EventLog:
     return EventLog(
         "log",
-        num_partitions=partitions,
+        num_partitions=p.count(0, partitions),
         retention_policy=_retention(kind, p),
         append_latency=p.lat(0),
         read_latency=p.lat(1),
@@ -140,7 +140,7 @@ def event_log_event_api(seed, params):
     sim = make_sim([log, w], p.end())
     for i, t in enumerate(arr):
         if i % 3 == 2:
-            ctx = {"partition": i % 2, "offset": 0, "max_records": 3}
+            ctx = {"partition": i % log.num_partitions, "offset": 0, "max_records": 3}
             kind = "Read"
         else:
             ctx = {"key": f"k{i % 5}", "value": i}
@@ -198,6 +198,7 @@ def _group(seed, params, strategy_name: str):
         proc.done += 1
 
     arr = p.arrivals(5)
+    arr = [arr[i % len(arr)] for i in range(p.count(1, len(arr)))]  # counts[1] group members
     cons = [Proc(f"c{i}", consumer) for i in range(len(arr))]
     prod = Proc("producer", producer)
     sim = make_sim([group, log, prod, *cons], p.end())
@@ -240,7 +241,7 @@ def _window(kind: str, p: P):
     if kind == "tumbling":
         return TumblingWindow(size_s=w)
     if kind == "sliding":
-        return SlidingWindow(size_s=w, slide_s=w / 3)
+        return SlidingWindow(size_s=w, slide_s=w / p.count(0, 3, hi=10))  # counts[0] overlapping windows
     return SessionWindow(gap_s=w / 2)
 
 
@@ -275,7 +276,7 @@ def _processor(seed, params, wkind: str, policy: LateEventPolicy, raw: bool = Fa
             et = max(0.0, ts - wm * 3 - w * rng.choice([1, 2, 5]))  # late: far behind the watermark
         else:
             et = max(0.0, ts - w * rng.random())  # on time, slightly out of order
-        ctx = {"key": f"k{i % 2}", "value": i}
+        ctx = {"key": f"k{i % p.count(1, 2)}", "value": i}
         if i % 5 == 0:
             ctx["event_time"] = at(int(et * 1e9))  # Instant flavour of the field
         elif i % 5 == 1:
@@ -309,3 +310,113 @@ def processor_raw_watermark_interval(seed, params):
     """Tumbling windows / UPDATE with the *raw* hostile watermark_interval_s (down to 1 ns) and
     a short horizon instead of a floored period."""
     return _processor(seed, params, "tumbling", LateEventPolicy.UPDATE, raw=True)
+
+
+# ----------------------------------------------------------------------
+# degenerate operations: empty results, zero sizes, tiny windows
+
+
+@scenario("streaming.degenerate_empty_log_and_group", "streaming")
+def degenerate_empty_log_and_group(seed, params):
+    """Reads / polls that find nothing: an empty partition, an offset beyond the end,
+    max_records 0, a negative partition id; a group whose only member polls an empty log,
+    commits nothing, commits backwards, leaves (last member) and polls again afterwards; a
+    second member joining and leaving an already empty group; zero append / read / poll /
+    rebalance latencies on a second log + group."""
+    p = P(params, seed)
+    log = EventLog("log", num_partitions=p.count(0, 3), append_latency=p.lat(0), read_latency=p.lat(1), retention_policy=SizeRetention(1), retention_check_interval=_every(p, 3))
+    group = ConsumerGroup("group", event_log=log, assignment_strategy=StickyAssignment(), rebalance_delay=p.lat(2), poll_latency=p.lat(1), session_timeout=p.lat(0))
+    log0 = EventLog("log.zero", num_partitions=1, append_latency=0.0, read_latency=0.0)
+    group0 = ConsumerGroup("group.zero", event_log=log0, rebalance_delay=0.0, poll_latency=0.0)
+
+    def lonely(proc, event):
+        lg, gr = (log, group) if event.context["metadata"]["worker"] % 2 == 0 else (log0, group0)
+        out = proc.log
+        out.append(("read.empty", len((yield from lg.read(0)))))
+        out.append(("read.beyond", len((yield from lg.read(0, offset=10_000)))))
+        out.append(("read.none", len((yield from lg.read(0, max_records=0)))))
+        out.append(("read.negative", len((yield from lg.read(-1)))))
+        assigned = yield from gr.join(proc.name, proc)
+        out.append(("poll.empty", len((yield from gr.poll(proc.name)))))
+        yield from gr.commit(proc.name, {})  # commit of nothing
+        rec = yield from lg.append("k", 1)
+        yield from lg.append("k", 2)
+        got = yield from gr.poll(proc.name, max_records=1)
+        yield from gr.commit(proc.name, {rec.partition: 2})
+        yield from gr.commit(proc.name, {rec.partition: 0})  # backwards: must be ignored
+        out.append(("poll.caught_up", len((yield from gr.poll(proc.name)))))
+        out.append(("poll.zero", len((yield from gr.poll(proc.name, max_records=0)))))
+        yield from gr.leave(proc.name)  # may be the last member
+        out.append(("poll.after_leave", len((yield from gr.poll(proc.name)))))
+        yield from gr.leave(proc.name)  # leaving twice
+        proc.done += 1
+
+    arr = p.arrivals(4)
+    procs = [Proc(f"m{i}", lonely) for i in range(len(arr))]
+    sim = make_sim([log, group, log0, group0, *procs], p.end())
+    for i, t in enumerate(arr):
+        sim.schedule(ev(t, "start", procs[i], worker=i))
+    return Scenario(sim, {"log": log, "group": group, "log.zero": log0, "group.zero": group0, **{q.name: q for q in procs}}, "streaming", True, len(arr))
+
+
+@scenario("streaming.degenerate_tiny_windows", "streaming")
+def degenerate_tiny_windows(seed, params):
+    """Windows of 1 ns (tumbling, sliding with slide = size, session gap 1 ns), zero allowed
+    lateness; a 'Watermark' tick delivered before any record was processed (no open window)
+    and watermarks far ahead of / behind the data; records at event time 0."""
+    p = P(params, seed)
+    out = Recorder("out")
+    eps = 1e-9
+    wm = _every(p, 1)
+    procs = [
+        StreamProcessor("sp.tumbling", TumblingWindow(eps), len, out, watermark_interval_s=wm),
+        StreamProcessor("sp.sliding", SlidingWindow(eps, eps), len, out, late_event_policy=LateEventPolicy.UPDATE, watermark_interval_s=wm),
+        StreamProcessor("sp.session", SessionWindow(eps), len, out, late_event_policy=LateEventPolicy.SIDE_OUTPUT, side_output=None, watermark_interval_s=wm),
+        StreamProcessor("sp.sliding_many", SlidingWindow(p.lat(0), p.lat(0) / p.count(0, 3, hi=12)), len, out, allowed_lateness_s=0.0, watermark_interval_s=wm),
+        StreamProcessor("sp.idle", TumblingWindow(p.lat(0)), len, out, watermark_interval_s=wm),  # only ever sees watermarks
+    ]
+    arr = sorted(p.arrivals(5))
+    arr = arr + _tail(arr, wm * 1.5, 3)
+    sim = make_sim([*procs, out], p.end())
+    t0 = min(arr)
+    for sp in procs:
+        sim.schedule(ev(t0, "Watermark", sp, context={"watermark_s": 0.0}))  # no open window yet
+    sim.schedule(ev(t0 + 1, "Watermark", procs[-1], context={"watermark_s": 1e6}))  # far ahead
+    sim.schedule(ev(t0 + 2, "Watermark", procs[-1], context={"watermark_s": -5.0}))  # behind
+    for i, t in enumerate(arr):
+        for sp in procs[:-1]:
+            ets = 0.0 if i == 0 else t / 1e9 - (eps if i % 2 else 0.0)
+            sim.schedule(ev(t, "Process", sp, context={"key": "k", "value": i, "event_time_s": ets}, i=i))
+    return Scenario(sim, {sp.name: sp for sp in procs} | {"out": out}, "streaming", True, len(arr) * 4 + len(procs) + 2)
+
+
+@scenario("streaming.composed_processor_and_log", "streaming")
+def composed_processor_and_log(seed, params):
+    """'Process' / 'Append' events reach a StreamProcessor / EventLog through a front stage
+    (server_queue / conveyor / link by x.v), i.e. later than their creation time and spread out; the processor uses
+    processing time (no event time given) for half of them and the creation time for the rest."""
+    p = P(params, seed)
+    v = int(p.x("v", seed * 7 + 3))
+    # only the stages that keep the event type ('Process' / 'Append' are dispatched on it;
+    # rate_limited / inductor re-type to 'forward::<type>', which both components ignore)
+    stages = [k for k in FRONT_STAGES if k in ("server_queue", "conveyor", "link")]
+    fk = stages[v % len(stages)]
+    out = Recorder("out")
+    kinds = [LateEventPolicy.DROP, LateEventPolicy.UPDATE, LateEventPolicy.SIDE_OUTPUT]
+    policy = kinds[(v // 5) % 3]
+    win = [TumblingWindow(p.lat(0) * 2), SlidingWindow(p.lat(0) * 2, p.lat(0) * 2 / p.count(0, 2, hi=6)), SessionWindow(p.lat(0))][(v // 15) % 3]
+    sp = StreamProcessor("proc", win, len, out, allowed_lateness_s=p.lat(0) * 0.5, late_event_policy=policy, side_output=out if policy is LateEventPolicy.SIDE_OUTPUT else None, watermark_interval_s=_every(p, 1))
+    log = EventLog("log", num_partitions=p.count(1, 2), retention_policy=TimeRetention(p.lat(0) * 3), append_latency=p.lat(2), read_latency=p.lat(2), retention_check_interval=_every(p, 3))
+    e1, f1 = front_stage(fk, p, sp, 0, name="front.proc")
+    e2, f2 = front_stage(fk, p, log, 0, name="front.log")
+    arr = p.arrivals(8)
+    sim = make_sim([sp, log, out, *f1, *f2], p.end())
+    for i, t in enumerate(arr):
+        ctx = {"key": f"k{i % 2}", "value": i}
+        if i % 2:
+            ctx["event_time_s"] = t / 1e9  # creation time: late by the stage delay on arrival
+        sim.schedule(ev(t, "Process", e1, context=ctx, i=i))
+        sim.schedule(ev(t, "Append", e2, context={"key": f"k{i % 3}", "value": i}, i=i))
+    sc = Scenario(sim, {"proc": sp, "log": log, "out": out}, "streaming", True, 2 * len(arr))
+    sc.notes = f"front={fk} policy={policy.name} window={type(win).__name__}"
+    return sc
